@@ -56,6 +56,11 @@ class UpdateExtractor(BaseExtractor):
                                 Column(tgt_cqt.column, source_columns=[src_cqt])
                             )
 
+            if segment.type == "where_clause":
+                # tables read by subqueries in WHERE are sources as well
+                for sq in self.list_subquery(segment):
+                    subqueries.append(sq)
+
             if segment.type == "from_clause":
                 # UPDATE FROM, ansi syntax
                 # there can be multiple from items, each may be a table or a subquery
